@@ -266,8 +266,9 @@ class ProblemFunction(MDOFunction, Serializable):
                 raise MaxIterReachedException
 
             jacobian = self._compute_jacobian(input_value).real
+            # N.B. jacobian.data handles both dense and sparse Jacobians.
             self.check_function_output_includes_nan(
-                jacobian, self.stop_if_nan, name, input_value
+                jacobian.data, self.stop_if_nan, name, input_value
             )
             if self.__store_jacobian:
                 database.store(hashed_xu, {name: jacobian})
